@@ -905,19 +905,94 @@ def stage_medium2(pmap, tier, seed):
     return bfs(pmap, SEEDS_MEDIUM, 2, 0, 99, 3, 'medium dev0')
 
 
+# ----------------------------------------------------------------------------- split(): parts are the components, nothing re-derived (added after seed C13-h1)
+SPLIT_FRAGS = ['CCO', 'Cl', '[Na+]', '[NH4+]', 'c1cc[nH]c1', 'c1ccncc1', 'c1cc[nH+]cc1', 'c1ccoc1', 'c1cnc[nH]1', '[cH-]1cccc1', 'C1=CC=CN1', 'CC([O-])=O', '[CH3]', 'c1ccc2[nH]ccc2c1']
+
+
+def _atom_fields(a):
+    return (a.atomic_number, a.isotope, a.charge, a.is_radical, a.implicit_hydrogens)
+
+
+def split_case(texts):
+    """reason or None: split() of the molecule read from the joined text returns one molecule per component with exactly the atoms (every stored field,
+    hydrogens included), numbers and bonds of that component, equal to the fragment read alone, and independent of the source"""
+    from chython import smiles
+    m = smiles('.'.join(texts))
+    before = {n: _atom_fields(a) for n, a in m.atoms()}
+    bonds = {frozenset((n, k)): b.order for n, k, b in m.bonds()}
+    rw = raw(m)
+    parts = m.split()
+    if len(parts) != len(texts):
+        return 'split: number of parts differs from the number of components'
+    if sorted(n for p in parts for n in p) != sorted(before):
+        return 'split: atom numbers of the parts are not a partition of the source'
+    for p in parts:
+        for n, a in p.atoms():
+            if _atom_fields(a) != before[n]:
+                return 'split: atom fields of a part differ from the source (element, isotope, charge, radical, hydrogens)'
+        pb = {frozenset((n, k)): b.order for n, k, b in p.bonds()}
+        if pb != {k: v for k, v in bonds.items() if k <= set(p)}:
+            return 'split: bonds of a part differ from the source'
+        r = check_adjacency(p)
+        if r:
+            return 'split: ' + r
+    if sorted(str(p) for p in parts) != sorted(str(smiles(t)) for t in texts):
+        return 'split: a part differs from the fragment read alone'
+    # independence: editing a part leaves the source alone, and the part stays editable
+    p = parts[0]
+    p.add_atom('F')
+    str(p)
+    if raw(m) != rw or {n: _atom_fields(a) for n, a in m.atoms()} != before:
+        return 'split: editing a part changed the source'
+    return None
+
+
+def run_split(shard):
+    acc = Acc()
+    k, nsh = shard
+    i = 0
+    for L in (2, 3):
+        for texts in itertools.product(SPLIT_FRAGS, repeat=L):
+            i += 1
+            if i % nsh != k:
+                continue
+            acc.states += 1
+            acc.transitions += 2
+            try:
+                r = split_case(texts)
+            except Exception as e:
+                r = 'split: raised %s' % type(e).__name__
+            if r:
+                acc.fail(r, split_case=list(texts))
+                acc.outcomes['FAIL ' + r] += 1
+            else:
+                acc.outcomes[('ok', L)] += 1
+    if k == 0:
+        acc.sample({'fragments': SPLIT_FRAGS, 'molecules': 'every ordered pair and triple'})
+    return acc
+
+
 def plan(tier, seed):
     if tier == 'thorough':
         return [Stage('BFS default reads depth 4', stage_default, None, 'all histories <=4 events, <=4 atoms, <=1 decorated atom, all caches read after every event'),
                 Stage('BFS <=1 read deviation depth 3', stage_dev1, None, 'all histories <=3 events, 11 seeds, with <=1 non-default read pattern (none/exactly-one-of-12)'),
                 Stage('BFS <=2 read deviations depth 3', stage_dev2, None, 'all histories <=3 events on 5 seeds with <=2 non-default read patterns (none / one of str, sssr, atoms_order, components)'),
                 Stage('medium seeds: every event, <=1 read deviation', stage_medium1, None, 'every enabled event at every position of 15 molecules of 5-10 atoms (rings, stereo, zwitterion, metal) x every read pattern'),
-                Stage('medium seeds: every pair of events', stage_medium2, None, 'all histories of 2 events on the 15 medium seeds, all caches read after every event')]
+                Stage('medium seeds: every pair of events', stage_medium2, None, 'all histories of 2 events on the 15 medium seeds, all caches read after every event'),
+                Stage('split(): parts are the components', run_split, [(k, 16) for k in range(16)], 'every ordered pair and triple of 14 fragments (aromatic NH, charged aromatic, radicals, ions): parts carry every stored field, equal the fragment read alone, independent of the source')]
     return [Stage('BFS default reads depth 3', stage_default, None, 'all histories <=3 events, <=4 atoms, <=1 decorated atom, all caches read after every event'),
             Stage('BFS <=1 read deviation depth 2', stage_dev1, None, 'all histories <=2 events, <=4 atoms, with <=1 non-default read pattern (none/exactly-one-of-10)'),
-            Stage('medium seeds: every event, <=1 read deviation', stage_medium1, None, 'every enabled event at every position of %d molecules of 5-8 atoms (Kekule ring, stereocentre, diene, bicycle, zwitterion, ring stereocentre, two rings, allene) x read patterns all / none / str only; labels of untouched, still stereogenic elements persist (I6)' % len(SEEDS_MEDIUM_QUICK))]
+            Stage('medium seeds: every event, <=1 read deviation', stage_medium1, None, 'every enabled event at every position of %d molecules of 5-8 atoms (Kekule ring, stereocentre, diene, bicycle, zwitterion, ring stereocentre, two rings, allene) x read patterns all / none / str only; labels of untouched, still stereogenic elements persist (I6)' % len(SEEDS_MEDIUM_QUICK)),
+            Stage('split(): parts are the components', run_split, [(k, 16) for k in range(16)], 'every ordered pair and triple of 14 fragments (aromatic NH, charged aromatic, radicals, ions): parts carry every stored field, equal the fragment read alone, independent of the source')]
 
 
 def replay(rec):
+    if rec.get('split_case'):
+        try:
+            r = split_case(tuple(rec['split_case']))
+        except Exception as e:
+            r = 'split: raised %s' % type(e).__name__
+        return [{'key': rec['key'], 'reason': r}] if r else []
     hist = tuple((_t(e), p) for e, p in [(h[0], h[1]) for h in rec['history']])
     if rec.get('event') is None:
         m = replay_history(rec['seed'], ())
